@@ -37,6 +37,20 @@ def solve_observe(model, val, method, mode="symbolic", strict=False, problem=Non
     return o
 
 
+def solve_observe_hist(model, val, method, hist, **kw):
+    """solve_observe for the SECOND solve of a problem object that reached `model`
+    through the edit history `hist` (first solve: fixed non-branching stubs, same method)"""
+    p, b, finish = LM.build_model_staged(model, val, hist)
+    with stubs.patched(stubs.MinimizeStub("fixed"), stubs.LinprogStub("fixed")), warnings.catch_warnings():
+        warnings.simplefilter("ignore")
+        try:
+            p.solve(method=method)
+        except Exception:  # noqa: BLE001
+            pass
+    finish()
+    return solve_observe(model, val, method, problem=p, build=b, **kw)
+
+
 def user_constraint_values(model, values):
     """[(sense, value, dom)] of the user's relations at `values` (reference)"""
     out = []
@@ -89,6 +103,55 @@ def _dual_x(cols, xv, wrt, wrt2=None):
 
 
 def minimize_call_obligations(call, model, cols, val, pc, tag, form, method, PID, qt, allv, payload, planted=False, check_x0=True):
+    """Everything C09 demands of ONE recorded scipy.optimize.minimize call (see _minimize_call_obligations);
+    a recorded callable that raises is itself a violation."""
+    from vf.engine.sym import SymbolicConcretisation
+    from vf.props.common import violation
+    try:
+        return _minimize_call_obligations(call, model, cols, val, pc, tag, form, method, PID, qt, allv, payload, planted, check_x0)
+    except SymbolicConcretisation:
+        raise
+    except (IndexError, KeyError, ValueError, TypeError, ZeroDivisionError) as e:
+        return [violation(f"{PID}|callable-raises:{type(e).__name__}|{form}", f"{tag}: a callable handed to the solver raises {type(e).__name__}: {str(e)[:80]}", dict(payload, kind=("callable-raises" if PID == "C09" else "raises")))]
+
+
+def shapes_wrong(call, n):
+    """replay helper: shapes of what the recorded callables return, for n variables; -> message or None"""
+    import numpy as np
+    x = np.full(n, 0.7)
+    with np.errstate(all="ignore"):
+        try:
+            if callable(call.get("jac")) and np.asarray(call["jac"](x)).size != n:
+                return f"jac returns {np.asarray(call['jac'](x)).size} entries for {n} variables"
+            if callable(call.get("hess")) and np.asarray(call["hess"](x)).shape != (n, n):
+                return f"hess returns shape {np.asarray(call['hess'](x)).shape} for {n} variables"
+            for k, cd in enumerate(call.get("constraints") or []):
+                if isinstance(cd, dict) and callable(cd.get("jac")) and np.asarray(cd["jac"](x)).size != n:
+                    return f"constraint {k} jac returns {np.asarray(cd['jac'](x)).size} entries for {n} variables"
+        except Exception as e:  # noqa: BLE001
+            return f"a recorded callable raises {type(e).__name__}: {e}"
+    return None
+
+
+def callables_raise(call, n):
+    """replay helper: call every callable of a recorded minimize call at a few points; -> message or None"""
+    import numpy as np
+    for x in (np.full(n, 0.7), np.arange(1, n + 1, dtype=float) * 0.3):
+        fns = [("fun", call.get("fun")), ("jac", call.get("jac")), ("hess", call.get("hess"))]
+        for k, cd in enumerate(call.get("constraints") or []):
+            if isinstance(cd, dict):
+                fns += [(f"constraint {k} fun", cd.get("fun")), (f"constraint {k} jac", cd.get("jac"))]
+        for name, f in fns:
+            if callable(f):
+                try:
+                    with np.errstate(all="ignore"):
+                        f(x)
+                except Exception as e:  # noqa: BLE001
+                    return f"{name} raises {type(e).__name__}: {e} at x={x.tolist()}"
+    return None
+
+
+def _minimize_call_obligations(call, model, cols, val, pc, tag, form, method, PID, qt, allv, payload, planted=False, check_x0=True):
     """Everything C09 demands of ONE recorded scipy.optimize.minimize call, for
     the model `model` under the valuation `val` (data and parameter values)."""
     from vf.engine import smt
@@ -124,6 +187,9 @@ def minimize_call_obligations(call, model, cols, val, pc, tag, form, method, PID
     else:
         try:
             g = np.asarray(call["jac"](x)).reshape(-1)
+            if g.size != len(cols):
+                res.append(violation(f"{PID}|jac-shape|{form}", f"{tag}: jac returns {g.size} entries for {len(cols)} variables", dict(payload, kind="shape")))
+                return res
             claims = []
             for j, w in enumerate(cols):
                 d = K.tangent(call["fun"](_dual_x(cols, xv, w)))
@@ -138,6 +204,9 @@ def minimize_call_obligations(call, model, cols, val, pc, tag, form, method, PID
     elif call["hess"] is not None:
         try:
             H = np.asarray(call["hess"](x))
+            if H.shape != (len(cols), len(cols)):
+                res.append(violation(f"{PID}|hess-shape|{form}", f"{tag}: hess returns shape {H.shape} for {len(cols)} variables", dict(payload, kind="shape")))
+                return res
             claims = []
             for i, wi in enumerate(cols):
                 for j, wj in enumerate(cols):
@@ -169,6 +238,9 @@ def minimize_call_obligations(call, model, cols, val, pc, tag, form, method, PID
             LM.con_ref(cdref, *model["cons"][k])
             try:
                 g = np.asarray(cd["jac"](x)).reshape(-1)
+                if g.size != len(cols):
+                    res.append(violation(f"{PID}|constraint-jac-shape|{form}", f"{tag}: constraint {k} jac returns {g.size} entries for {len(cols)} variables", dict(payload, kind="shape")))
+                    return res
                 claims = [smt.eq(g[j], K.tangent(cd["fun"](_dual_x(cols, xv, w))) + pl) for j, w in enumerate(cols)]
                 res.append(K.decide(claims, pc, cdref.dom, f"{tag}: constraint {k} jac == grad fun", f"{PID}|constraint-jac|{form}|{model['cons'][k][0]}", dict(payload, ob=f"conjac{k}"), allv, qt))
             except SymbolicConcretisation as e:
@@ -209,4 +281,59 @@ def minimize_call_obligations(call, model, cols, val, pc, tag, form, method, PID
         res.append(violation(f"{PID}|x0-shape|{form}", f"{tag}: x0 has {len(x0)} entries", dict(payload, kind="raises")))
     elif claims:
         res.append(K.decide(claims, pc, hyp, f"{tag}: x0 inside bounds when lb<=ub", f"{PID}|x0|{form}", dict(payload, ob="x0"), allv, qt))
+    return res
+
+
+def lp_call_obligations(call, model, cols, val, pc, tag, form, PID, qt, allv, payload):
+    """what C08 demands of ONE recorded linprog call: the passed rows / bounds describe the user's
+    feasible set and the passed cost is the user's objective direction (symbolic data, all x)"""
+    import z3
+    from vf.engine import smt
+    from vf.engine.sym import SReal, sbool_term
+    from vf.props.common import proved, violation
+    res = []
+    if len(call["c"]) != len(cols) or any(n not in val for n in cols):
+        return [violation(f"{PID}|lp-columns|{form}", f"{tag}: linprog got {len(call['c'])} columns, the model has variables {cols}", dict(payload, kind="raises"))]
+    xs = [val[n] for n in cols]
+
+    def dot(a, x):
+        t = 0.0
+        for u, v in zip(a, x):
+            t = t + u * v
+        return t
+    yv = {n: SReal.var("y_" + n) for n in cols}
+    val2 = dict(val)
+    val2.update(yv)
+    r1, r2 = Ref(val, 0), Ref(val2, 0)
+    sgn = 1.0 if model["sense"] == "min" else -1.0
+    lhs = dot(call["c"], xs) - dot(call["c"], [val2[n] for n in cols])
+    rhs = sgn * (r1.S(model["obj"]) - r2.S(model["obj"]))
+    res.append(K.decide(smt.eq(lhs, rhs), pc, r1.dom + r2.dom, f"{tag}: linprog cost == user's objective direction", f"{PID}|lp-cost|{form}",
+                        dict(payload, ob="cost"), list(allv) + ["y_" + n for n in cols], qt))
+    passed = []
+    if call["A_ub"] is not None:
+        for r in range(len(call["A_ub"])):
+            passed.append(sbool_term(dot(call["A_ub"][r], xs) <= call["b_ub"][r]))
+    if call["A_eq"] is not None:
+        for r in range(len(call["A_eq"])):
+            passed.append(sbool_term(dot(call["A_eq"][r], xs) == call["b_eq"][r]))
+    bl = call["bounds"] if call["bounds"] is not None else [(0, None)] * len(cols)
+    for i, (lb, ub) in enumerate(bl):
+        if lb is not None:
+            passed.append(sbool_term(xs[i] >= lb))
+        if ub is not None:
+            passed.append(sbool_term(xs[i] <= ub))
+    user, dom = [], []
+    for sense, v, d in user_constraint_values(model, val):
+        user.append(sbool_term(v <= 0) if sense == "<=" else sbool_term(v == 0))
+        dom += d
+    for n in cols:
+        lb, ub = LM.declared_bounds(model, n, val)
+        if lb is not None:
+            user.append(sbool_term(val[n] >= lb))
+        if ub is not None:
+            user.append(sbool_term(val[n] <= ub))
+    P = z3.And(passed) if passed else z3.BoolVal(True)
+    U = z3.And(user) if user else z3.BoolVal(True)
+    res.append(K.decide(P == U, pc, dom, f"{tag}: linprog feasible set == user's feasible set", f"{PID}|lp-feasible-set|{form}", dict(payload, ob="feasible"), allv, qt))
     return res
